@@ -334,6 +334,14 @@ def not_equal(op1: Any, op2: Any) -> bool:
     return bool(op1 != op2)
 
 
+def is_wildcard(name: str) -> bool:
+    """
+    Tells if an expanded name is a wildcard ('*', '{*}local' or '{uri}*'). An asterisk
+    in the namespace part doesn't make a wildcard.
+    """
+    return name[-1:] == '*' or name[:3] == '{*}'
+
+
 def match_wildcard(name: Optional[str], wildcard: str) -> bool:
     if not name:
         return False
